@@ -817,10 +817,16 @@ pub(crate) mod stmt_block {
         table_constructor: &TableConstructor,
         shape: Shape,
     ) -> TableConstructor {
+        // `-- stylua: ignore start` / `end` in front of a field switch formatting off / on for the fields that follow
+        let mut ctx = *ctx;
+
         let fields = table_constructor
             .fields()
             .pairs()
             .map(|pair| {
+                ctx = ctx.check_toggle_formatting(pair.value());
+                let ctx = &ctx;
+
                 pair.to_owned().map(|field| {
                     // A field under `-- stylua: ignore` is left as written, including any blocks nested inside it
                     if let FormatNode::Skip = ctx.should_format_node(&field) {
